@@ -60,17 +60,18 @@ fn edr_body_at(first_fill: bool, cap: usize, len: usize, fixed: Option<(usize, u
     let counts: [usize; CALLS] = kani::any();
     kani::assume(counts[0] <= 8 && counts[1] <= 8 && counts[2] <= 8);
     let stale: [u8; 16] = kani::any();
-    let fill: usize = kani::any();
-    let cursor: usize = kani::any();
+    // concrete values must be real constants (an `assume` does not let symex fold them)
+    let (cursor, fill): (usize, usize) = match fixed {
+        Some(cf) => cf,
+        None => (kani::any(), kani::any()),
+    };
     let base: usize = kani::any();
     kani::assume(base < (1usize << 40));
     if first_fill {
         kani::assume(fill == 0 && cursor == 0 && base == 0);
     } else {
         kani::assume(cursor <= fill && fill <= 8 && fill <= cap);
-        if let Some((c, f)) = fixed {
-            kani::assume(cursor == c && fill == f);
-        }
+
     }
     // buffer: stream prefix below the fill level, arbitrary stale bytes above
     let mut buf = vec![0u8; cap];
@@ -93,27 +94,27 @@ fn edr_body_at(first_fill: bool, cap: usize, len: usize, fixed: Option<(usize, u
     let off = it.verif_offset().unwrap_or(0);
     let ncur = it.verif_cursor();
     let nfill = it.verif_fill();
-    assert!(off + ncur == abs_cur, "C04b: the read position is unchanged by refilling");
-    assert!(ncur <= nfill && nfill <= it.verif_buffer().len(), "C04b: cursor <= fill <= allocation afterwards");
-    assert!(off + nfill >= abs_fill, "C04b: buffered data is only extended");
+    assert!(off + ncur == abs_cur, "C04/C05b: the read position is unchanged by refilling");
+    assert!(ncur <= nfill && nfill <= it.verif_buffer().len(), "C04/C05b: cursor <= fill <= allocation afterwards");
+    assert!(off + nfill >= abs_fill, "C04/C05b: buffered data is only extended");
     assert!(it.verif_buffer().len() <= if cap > len { cap } else { len }, "C17b: a refill never allocates more than max(current allocation, requested length)");
-    assert!(off + nfill == base + it.get_ref().pos, "C04b: every byte the source delivered is in the buffer, none twice");
+    assert!(off + nfill == base + it.get_ref().pos, "C04/C05b: every byte the source delivered is in the buffer, none twice");
     // logical view equals the stream
     let a: usize = kani::any();
     if a >= abs_cur && a < off + nfill {
         // (a guarded assertion, not an assume: the window may be empty)
-        assert!(it.verif_buffer()[a - off] == stream[a - base], "C04b: buffered window equals the stream at every absolute position");
+        assert!(it.verif_buffer()[a - off] == stream[a - base], "C04/C05b: buffered window equals the stream at every absolute position");
     }
     match &r {
         Ok(true) => {
-            assert!(ncur + len <= nfill, "C04b: Ok(true) means the requested bytes are buffered");
+            assert!(ncur + len <= nfill, "C04/C05b: Ok(true) means the requested bytes are buffered");
             kani::cover!(len == 1 || it.get_ref().call == 3, "three reads needed reached");
         }
         Ok(false) => {
-            assert!(ncur + len > nfill, "C04b: Ok(false) only when the bytes are not there");
-            assert!(it.get_ref().zero_seen, "C04b: Ok(false) only after the source reported end of file (never because the buffer is full or after a short read)");
+            assert!(ncur + len > nfill, "C04/C05b: Ok(false) only when the bytes are not there");
+            assert!(it.get_ref().zero_seen, "C04/C05b: Ok(false) only after the source reported end of file (never because the buffer is full or after a short read)");
         }
-        Err(_) => assert!(false, "C04b: no error without a source error"),
+        Err(_) => assert!(false, "C04/C05b: no error without a source error"),
     }
     core::mem::forget(r);
     core::mem::forget(it);
